@@ -165,6 +165,8 @@ type sigSpec struct {
 type c06Case struct {
 	Gnosis    bool
 	N, T      int
+	Members   []int // universe key index of the keyper at each position (which keys form the set varies)
+	Outsider  int   // a universe key that is not a member
 	Presented sigTuple
 	Signers   []uint64
 	Sigs      [][]byte
@@ -182,6 +184,7 @@ func genC06Case(rt *rapid.T) c06Case {
 	c.Gnosis = rapid.Bool().Draw(rt, "gnosis")
 	c.N = rapid.IntRange(1, 4).Draw(rt, "n")
 	c.T = rapid.IntRange(1, c.N).Draw(rt, "t")
+	c.drawMembers(rt)
 	idLen := 32
 	if c.Gnosis {
 		idLen = 52
@@ -301,7 +304,7 @@ func genC06Case(rt *rapid.T) c06Case {
 			sig = []byte{}
 		}
 		if spec.Signer >= 0 {
-			sig = signTuple(c.Gnosis, signOver, uni.Keys[spec.Signer])
+			sig = signTuple(c.Gnosis, signOver, c.keyOf(spec.Signer))
 			tt := signOver
 			spec.Tuple = &tt
 			if sig == nil {
@@ -354,10 +357,24 @@ func (c *c06Case) expected() bool {
 	return true
 }
 
+// drawMembers decides which universe keys sit at which position of the keyper set.
+func (c *c06Case) drawMembers(rt *rapid.T) {
+	perm := rapid.Permutation(seq(len(uni.Keys))).Draw(rt, "memberKeys")
+	c.Members, c.Outsider = append([]int{}, perm[:c.N]...), perm[c.N]
+}
+
+// keyOf returns the signing key of the keyper at position pos (outsiderKeyIdx: the outsider).
+func (c *c06Case) keyOf(pos int) *ecdsa.PrivateKey {
+	if pos >= 0 && pos < len(c.Members) {
+		return uni.Keys[c.Members[pos]]
+	}
+	return uni.Keys[c.Outsider]
+}
+
 func (c *c06Case) keyperSet() *obskeyper.KeyperSet {
 	ks := &obskeyper.KeyperSet{KeyperConfigIndex: int64(c.Presented.Eon), Threshold: int32(c.T)}
 	for i := 0; i < c.N; i++ {
-		ks.Keypers = append(ks.Keypers, shdb.EncodeAddress(uni.Addrs[i]))
+		ks.Keypers = append(ks.Keypers, shdb.EncodeAddress(uni.Addrs[c.Members[i]]))
 	}
 	return ks
 }
@@ -521,9 +538,9 @@ func TestC06_KeyperChain(t *testing.T) {
 		if c.Gnosis {
 			fl = flGnosis
 		}
-		node := newSimNode(fl, 0, 8)
+		node := newSimNode(fl, c.Members[0], 8)
 		defer node.Close()
-		es := &eonSetup{KeyperConfigIndex: int(c.Presented.Eon), Eon: 50, Activation: 10, Members: seq(c.N), Threshold: c.T, Keys: ek}
+		es := &eonSetup{KeyperConfigIndex: int(c.Presented.Eon), Eon: 50, Activation: 10, Members: c.Members, Threshold: c.T, Keys: ek}
 		if err := writeBatchConfigAndEon(ctx, node.DB, es, true); err != nil {
 			rt.Fatalf("setup: %v", err)
 		}
@@ -573,6 +590,7 @@ func genC06Genuine(rt *rapid.T) c06Case {
 	c.Gnosis = rapid.Bool().Draw(rt, "gnosis")
 	c.N = rapid.IntRange(1, 4).Draw(rt, "n")
 	c.T = rapid.IntRange(1, c.N).Draw(rt, "t")
+	c.drawMembers(rt)
 	idLen := 32
 	if c.Gnosis {
 		idLen = 52
@@ -594,7 +612,7 @@ func genC06Genuine(rt *rapid.T) c06Case {
 	sort.Slice(c.Signers, func(i, j int) bool { return c.Signers[i] < c.Signers[j] })
 	for _, s := range c.Signers {
 		tt := c.Presented.clone()
-		c.Sigs = append(c.Sigs, signTuple(c.Gnosis, tt, uni.Keys[s]))
+		c.Sigs = append(c.Sigs, signTuple(c.Gnosis, tt, c.keyOf(int(s))))
 		c.SigSpecs = append(c.SigSpecs, sigSpec{Kind: "listed", Signer: int(s), Tuple: &tt})
 	}
 	fl := "service"
@@ -653,9 +671,9 @@ func TestC06_Sequences(t *testing.T) {
 			if c0.Gnosis {
 				fl = flGnosis
 			}
-			node = newSimNode(fl, 0, 8)
+			node = newSimNode(fl, c0.Members[0], 8)
 			defer node.Close()
-			es := &eonSetup{KeyperConfigIndex: int(setupEon), Eon: 50, Activation: 10, Members: seq(c0.N), Threshold: c0.T, Keys: ek}
+			es := &eonSetup{KeyperConfigIndex: int(setupEon), Eon: 50, Activation: 10, Members: c0.Members, Threshold: c0.T, Keys: ek}
 			if err := writeBatchConfigAndEon(ctx, node.DB, es, true); err != nil {
 				rt.Fatalf("setup: %v", err)
 			}
